@@ -143,13 +143,16 @@ func c16WriteDiffCSVs(dir string, nblocks, added, removed, modified int) {
 	ow, nw := csv.NewWriter(bufio.NewWriter(of)), csv.NewWriter(bufio.NewWriter(nf))
 	ow.Write([]string{"id", "name", "value"})
 	nw.Write([]string{"id", "name", "value"})
-	stepR, stepM := n/(removed+1), n/(modified+1)
+	// disjoint positions: rows 0,3,6,.. are removed, rows 1,4,7,.. modified (counts <= n/3)
+	if removed > n/3 || modified > n/3 {
+		panic("c16: too many removed / modified rows for the file size")
+	}
 	for i := 0; i < n; i++ {
 		row := []string{fmt.Sprintf("%07d", i), fmt.Sprintf("name-%d", i), fmt.Sprint(i * 7)}
 		ow.Write(row)
 		switch {
-		case removed > 0 && i%stepR == 5 && i/stepR < removed:
-		case modified > 0 && i%stepM == 3 && i/stepM < modified:
+		case i%3 == 0 && i/3 < removed:
+		case i%3 == 1 && i/3 < modified:
 			nw.Write([]string{row[0], row[1], row[2] + "-changed"})
 		default:
 			nw.Write(row)
